@@ -6,7 +6,7 @@
 import OtterVerif.Gen.Policy
 
 namespace OtterVerif.Pin.Policy
-open OtterVerif
+open OtterVerif OtterVerif.Gen.Policy
 
 /-- `rfl` when the regenerated term is the recorded one; otherwise try to see through a harmless rewrite
     (operand order of commutative operators) -/
@@ -160,6 +160,9 @@ theorem makeDead_c1_pin (n_IsDead : Bool) :
 theorem setMaximumSize_c0_pin (maximum : BitVec 64) (p_maximum : BitVec 64) :
     Gen.Policy.setMaximumSize_c0 maximum p_maximum = (maximum == p_maximum) := by pin_tac Gen.Policy.setMaximumSize_c0
 
+theorem setMaximumSize_c1_pin (maximum : BitVec 64) (p_isWeighted : Bool) (p_sketchnot_nil : Bool) (p_weightedSize : BitVec 64) :
+    Gen.Policy.setMaximumSize_c1 maximum p_isWeighted p_sketchnot_nil p_weightedSize = ((p_sketchnot_nil && (!p_isWeighted)) && (BitVec.ule (maximum >>> 1) p_weightedSize)) := by pin_tac Gen.Policy.setMaximumSize_c1
+
 theorem setMaximumSize_a2_pin (maximum : BitVec 64) :
     Gen.Policy.setMaximumSize_a2 maximum = maximum := by pin_tac Gen.Policy.setMaximumSize_a2
 
@@ -195,6 +198,9 @@ theorem evictFromWindow_c1_pin (node_Equals_n_nil : Bool) :
 
 theorem evictFromWindow_c2_pin (nodeWeight : BitVec 64) :
     Gen.Policy.evictFromWindow_c2 nodeWeight = (nodeWeight != (0#64)) := by pin_tac Gen.Policy.evictFromWindow_c2
+
+theorem evictFromWindow_c3_pin (first__nil : Bool) :
+    Gen.Policy.evictFromWindow_c3 first__nil = first__nil := by pin_tac Gen.Policy.evictFromWindow_c3
 
 theorem evictFromWindow_a2_pin (n_Weight : BitVec 32) :
     Gen.Policy.evictFromWindow_a2 n_Weight = (BitVec.setWidth 64 n_Weight) := by pin_tac Gen.Policy.evictFromWindow_a2
@@ -264,6 +270,12 @@ theorem admit_c0_pin (candidateFreq : BitVec 64) (victimFreq : BitVec 64) :
 
 theorem admit_c1_pin (candidateFreq : BitVec 64) :
     Gen.Policy.admit_c1 candidateFreq = (BitVec.ule (6#64) candidateFreq) := by pin_tac Gen.Policy.admit_c1
+
+theorem admit_a0_pin (p_sketch_frequency_victimKey : BitVec 64) :
+    Gen.Policy.admit_a0 p_sketch_frequency_victimKey = p_sketch_frequency_victimKey := by pin_tac Gen.Policy.admit_a0
+
+theorem admit_a1_pin (p_sketch_frequency_candidateKey : BitVec 64) :
+    Gen.Policy.admit_a1 p_sketch_frequency_candidateKey = p_sketch_frequency_candidateKey := by pin_tac Gen.Policy.admit_a1
 
 theorem admit_r0_pin :
     Gen.Policy.admit_r0  = true := by pin_tac Gen.Policy.admit_r0
@@ -505,6 +517,7 @@ theorem siteParams_pin : Gen.Policy.siteParams = [("access_c0", ["n_InWindow"]),
   ("makeDead_c0", ["q_Contains_n"]),
   ("makeDead_c1", ["n_IsDead"]),
   ("setMaximumSize_c0", ["maximum", "p_maximum"]),
+  ("setMaximumSize_c1", ["maximum", "p_isWeighted", "p_sketchnot_nil", "p_weightedSize"]),
   ("setMaximumSize_a2", ["maximum"]),
   ("setMaximumSize_a3", ["window"]),
   ("setMaximumSize_a4", ["mainProtected"]),
@@ -517,6 +530,7 @@ theorem siteParams_pin : Gen.Policy.siteParams = [("access_c0", ["n_InWindow"]),
   ("evictFromWindow_c0", ["p_windowMaximum", "p_windowWeightedSize"]),
   ("evictFromWindow_c1", ["node_Equals_n_nil"]),
   ("evictFromWindow_c2", ["nodeWeight"]),
+  ("evictFromWindow_c3", ["first__nil"]),
   ("evictFromWindow_a2", ["n_Weight"]),
   ("evictFromWindow_u0", ["nodeWeight", "p_windowWeightedSize"]),
   ("evictFromMain_c0", ["p_maximum", "p_weightedSize"]),
@@ -540,6 +554,8 @@ theorem siteParams_pin : Gen.Policy.siteParams = [("access_c0", ["n_InWindow"]),
   ("evictFromMain_a8", []),
   ("admit_c0", ["candidateFreq", "victimFreq"]),
   ("admit_c1", ["candidateFreq"]),
+  ("admit_a0", ["p_sketch_frequency_victimKey"]),
+  ("admit_a1", ["p_sketch_frequency_candidateKey"]),
   ("admit_r0", []),
   ("admit_r1", ["p_rand"]),
   ("admit_r2", []),
@@ -603,7 +619,7 @@ theorem siteParams_pin : Gen.Policy.siteParams = [("access_c0", ["n_InWindow"]),
   ("decreaseWindow_u5", ["p_mainProtectedMaximum", "quota"]),
   ("decreaseWindow_u6", ["p_windowMaximum", "quota"]),
   ("decreaseWindow_a6", ["quota"]),
-  ("reorder_c0", ["d_Contains_n"])] := by decide
+  ("reorder_c0", ["d_Contains_n"])] := by rfl
 
 theorem shape_pin : Gen.Policy.shape = [("access", [3, 1, 0, 0]),
   ("add", [6, 5, 4, 0]),
@@ -621,6 +637,6 @@ theorem shape_pin : Gen.Policy.shape = [("access", [3, 1, 0, 0]),
   ("demote", [4, 2, 5, 0]),
   ("increaseWindow", [7, 8, 9, 0]),
   ("decreaseWindow", [5, 7, 7, 0]),
-  ("reorder", [1, 0, 0, 0])] := by decide
+  ("reorder", [1, 0, 0, 0])] := by rfl
 
 end OtterVerif.Pin.Policy
